@@ -20,6 +20,7 @@ mod lall;
 mod cfggen;
 mod c12;
 mod c16;
+mod c20; // C20
 
 use std::io::{BufRead, Write};
 
@@ -38,6 +39,7 @@ fn main() {
             let out = std::io::stdout();
             let mut out = std::io::BufWriter::new(out.lock());
             let lines = match prop {
+                "C20" => c20::gen(tier, seed), // C20
                 "C16" => c16::gen(tier, seed),
                 "C12" => c12::gen(tier, seed),
                 "C10" => c10::gen(tier, seed),
@@ -73,6 +75,7 @@ fn main() {
                 let l2 = line.clone();
                 let p = prop.to_string();
                 let res = std::panic::catch_unwind(move || match p.as_str() {
+                    "C20" => c20::eval(&l2), // C20
                     "C16" => c16::eval(&l2),
                     "C12" => c12::eval(&l2),
                     "C10" => c10::eval(&l2),
